@@ -571,6 +571,20 @@ func c15ExecFW(x *c15Ctx, base string, db *c15DB, members [][2]int) (string, []F
 	if setup == "" && unknown && len(members) > 0 {
 		// taxa[i] is nil: IndexSequence ends in log.Panicf inside a goroutine of the worker
 		stat("fw:predicted-panic:nil-taxon:not-run")
+		// observed on the real IndexSequence, called here (a panic in this goroutine is recovered) on the arrays the
+		// worker builds: kmercounts[i] = (*kmers)[j], taxa[i] = nil for an unknown taxid
+		kc := make([]*obikmer.Table4mer, len(members))
+		ta := make(obitax.TaxonSet, len(members))
+		for p, m := range members {
+			kc[p] = kmers[m[1]]
+			ta[p], _ = db.tax.Taxon(seqs[p].Taxid())
+		}
+		if obs := guardT(20*time.Second, func() string {
+			obirefidx.IndexSequence(0, seqs, &kc, &ta, db.tax)
+			return "ok"
+		}); obs != "panic" {
+			x.addf("fw.prediction", "IndexSequence on a map holding a nil taxon: %s, predicted panic", obs)
+		}
 		return "panic", x.fails
 	}
 	if !aligned {
@@ -706,7 +720,7 @@ func c15GenSetup(tier string, emit func(string)) {
 	// ---- random data bases
 	n := 260
 	if tier == "thorough" {
-		n = 700
+		n = 450
 	}
 	for it := 0; it < n; it++ {
 		L := 24 + rng.Intn(70)
